@@ -147,3 +147,53 @@ def checkTree (N : Nat) (m : TreeMap) : Bool := (toBT? m (N + 1) (List.range N))
 
 end Path
 end Cotengra
+
+namespace Cotengra
+namespace Path
+
+/-! ## `ContractionTree.from_path` (core.py:474-574) at the level of the trees it builds
+
+  Each live item is the subtree built so far (in the code: a frozenset key plus the entries of
+  `children` beneath it). `contract_nodes` (core.py:1343-1399): one node is returned as is, two
+  are paired by `contract_nodes_pair` (heavier subtree on the left, ties broken by the smaller
+  minimum, :1305-1318), three or more are arranged by the sub-optimizer (`find_path` + pairwise
+  recursion) — an oracle `shape`. -/
+
+def minLeaf : BT → Nat
+  | .leaf i => i
+  | .node l r => Nat.min (minLeaf l) (minLeaf r)
+
+/-- `contract_nodes_pair(x, y)` -/
+def pairBT (x y : BT) : BT :=
+  let nx := x.leaves.length
+  let ny := y.leaves.length
+  if nx = ny then (if minLeaf x < minLeaf y then .node x y else .node y x)
+  else if nx > ny then .node x y else .node y x
+
+/-- `contract_nodes(nodes, optimize)` -/
+def mergeBT (shape : List BT → BT) : List BT → BT
+  | [x] => x
+  | [x, y] => pairBT x y
+  | xs => shape xs
+
+def leafBTs (N : Nat) : List BT := (List.range N).map BT.leaf
+
+/-- `from_path(path=…, autocomplete=…)`: the live subtrees at the end -/
+def fromLinear (shape : List BT → BT) (N : Nat) (path : Path) (autocomplete : Bool) :
+    Option (List BT) :=
+  match runLinear (mergeBT shape) (leafBTs N) path with
+  | none => none
+  | some items =>
+    if items.length > 1 && autocomplete then some [mergeBT shape items] else some items
+
+/-- `from_path(ssa_path=…, autocomplete=…)` -/
+def fromSSA (shape : List BT → BT) (N : Nat) (path : Path) (autocomplete : Bool) :
+    Option (List BT) :=
+  match runSSA (mergeBT shape) (initSSA N BT.leaf) path with
+  | none => none
+  | some s =>
+    let items := s.nodes.map (·.2)
+    if items.length > 1 && autocomplete then some [mergeBT shape items] else some items
+
+end Path
+end Cotengra
